@@ -11,59 +11,14 @@ import (
 	"github.com/openconfig/gnmi/proto/gnmi"
 )
 
-// MapCalls associates scenario calls with log indexes: Sets by the user name the client sent ("c<n>"), rollbacks by
-// (rollback index, order).
+// MapCalls associates scenario calls with log indexes: the append of a transaction is a parked Atomix call attributed to
+// the client task ("cli/<n>") whose handler issued it.
 func (s *Sys) MapCalls() {
 	s.callIndex = map[int]uint64{}
 	s.indexCall = map[uint64]int{}
-	r := s.Rec
-	byUser := map[string]uint64{}
-	var rbs []uint64
-	for i := uint64(1); i <= r.MaxTx; i++ {
-		tx := r.Txs[i]
-		if tx == nil {
-			continue
-		}
-		if tx.GetChange() != nil {
-			byUser[tx.Username] = i
-		} else if tx.GetRollback() != nil {
-			rbs = append(rbs, i)
-		}
-	}
-	used := map[uint64]bool{}
-	for i, c := range s.Calls {
-		if c == nil {
-			continue
-		}
-		switch c.Op.Kind {
-		case "set":
-			if idx, ok := byUser[fmt.Sprintf("c%d", i)]; ok {
-				s.callIndex[i] = idx
-				s.indexCall[idx] = i
-			}
-		case "rollback":
-			if c.TxIndex != 0 {
-				s.callIndex[i] = c.TxIndex
-				s.indexCall[c.TxIndex] = i
-				used[c.TxIndex] = true
-			}
-		}
-	}
-	// rollback calls without a response: match remaining rollback transactions in order of start
-	var open []int
-	for i, c := range s.Calls {
-		if c != nil && c.Op.Kind == "rollback" && c.TxIndex == 0 {
-			open = append(open, i)
-		}
-	}
-	sort.Slice(open, func(a, b int) bool { return s.Calls[open[a]].StartStep < s.Calls[open[b]].StartStep })
-	for _, idx := range rbs {
-		if used[idx] || len(open) == 0 {
-			continue
-		}
-		s.callIndex[open[0]] = idx
-		s.indexCall[idx] = open[0]
-		open = open[1:]
+	for idx, n := range s.Rec.TxCall {
+		s.callIndex[n] = idx
+		s.indexCall[idx] = n
 	}
 }
 
